@@ -60,22 +60,20 @@ func main() {
 	}
 }
 
-// runCase applies the operations in order (continuing after errors) and reports the verdict of the
-// sequence: PANIC if any operation panicked, else ERR if the LAST operation returned an error, else OK —
-// what run_ops of the model returns under `try` for all but the last operation.
-func runCase(c ShapeCase) (shape string, v verdict) {
+// runCase applies the operations in order (continuing after errors) and reports the verdict of every
+// operation, comma separated ("ERR,OK,PANIC": the sequence stops at a panic); v is the last one.
+func runCase(c ShapeCase) (shape string, v verdict, all string) {
 	f := c.build()
 	shape = encodeFile(f)
-	for i, op := range c.Ops {
+	var vs []string
+	for _, op := range c.Ops {
 		v = runOp(f, op)
+		vs = append(vs, v.res)
 		if v.res == "PANIC" {
-			return shape, v
-		}
-		if i < len(c.Ops)-1 {
-			v = verdict{res: "OK"}
+			break
 		}
 	}
-	return shape, v
+	return shape, v, strings.Join(vs, ",")
 }
 
 func corr(args []string) {
@@ -90,10 +88,10 @@ func corr(args []string) {
 	id := 0
 	dist := map[string]int{}
 	emit := func(c ShapeCase) {
-		shape, v := runCase(c)
+		shape, v, all := runCase(c)
 		id++
-		cases.Printf("%d %s %s %s\n", id, v.res, strings.Join(c.Ops, ","), shape)
-		impl.Printf("%d %s\n", id, v.res)
+		cases.Printf("%d %s %s %s\n", id, all, strings.Join(c.Ops, ","), shape)
+		impl.Printf("%d %s\n", id, all)
 		b, _ := json.Marshal(struct {
 			ID int `json:"id"`
 			ShapeCase
@@ -121,7 +119,9 @@ func corr(args []string) {
 			}
 		}
 	}
-	r := rng.FromEnv(0xC06095)
+	// rng.FromEnv adds seed*γ to the state, so two seeds give shifted copies of one stream (they re-synchronise
+	// after a few cases); the start state is passed through the output function once to separate them
+	r := rng.New(rng.FromEnv(0xC06095).U64())
 	// every seed kind unmutated, every operation
 	for _, kind := range seedKinds {
 		for s := uint64(1); s <= 3; s++ {
@@ -286,8 +286,8 @@ func replay(args []string) {
 		}
 		c = w.Input
 	}
-	shape, v := runCase(c)
-	fmt.Printf("case   : seed=%d kind=%s muts=%v ops=%v\nshape  : %s\nverdict: %s %s %s\n", c.Seed, c.Kind, c.Muts, c.Ops, shape, v.res, v.frame, v.what)
+	shape, v, all := runCase(c)
+	fmt.Printf("case   : seed=%d kind=%s muts=%v ops=%v\nshape  : %s\nverdict: %s (%s) %s %s\n", c.Seed, c.Kind, c.Muts, c.Ops, shape, v.res, all, v.frame, v.what)
 	if v.res == "PANIC" {
 		os.Exit(1)
 	}
